@@ -10,6 +10,7 @@ package dns
 import (
 	"fmt"
 	"reflect"
+	"runtime"
 	"strings"
 )
 
@@ -128,8 +129,21 @@ func vObserve(tag string, xs ...any) {
 	vObs = append(vObs, sb.String())
 }
 
-func vSteps() int      { return 0 }
-func vAllocBytes() int { return 0 }
+// vSteps / vAllocBytes: work and allocation counters. Under the engine they are exact counts of
+// interpreted SSA instructions and of bytes requested by make/new/append. Natively (replay of a
+// budget violation) allocation is the runtime's TotalAlloc and work is approximated by 40 steps per
+// heap allocation, which is enough to confirm a loop that runs (and allocates) far beyond its input.
+func vSteps() int {
+	var ms runtime.MemStats
+	runtime.ReadMemStats(&ms)
+	return int(ms.Mallocs) * 40
+}
+
+func vAllocBytes() int {
+	var ms runtime.MemStats
+	runtime.ReadMemStats(&ms)
+	return int(ms.TotalAlloc)
+}
 func vSymbolic() bool  { return false }
 
 // vParam returns a bound chosen by the check's tier (engine: -params; native: replay file).
